@@ -269,7 +269,7 @@ impl Prop for C10 {
                     let out = match out {
                         Ok(o) if o.status.success() => o,
                         Ok(o) => return Outcome::fail(format!("child process {} failed: {:?} {}", round, o.status, String::from_utf8_lossy(&o.stderr))),
-                        Err(e) => return Outcome::discard(format!("cannot spawn child: {}", e)),
+                        Err(e) => return Outcome::discard_env(format!("cannot spawn child: {}", e)),
                     };
                     let theirs: Vec<u64> = match serde_json::from_slice(&out.stdout) {
                         Ok(v) => v,
